@@ -392,6 +392,27 @@ pub fn run_c18(run: &mut Run) -> Stats {
             if fresh.len() != len || fresh.last_modified() != Some(mtime0) || crf.len() != meta0.len() || crf.last_modified() != Some(meta0.modified().unwrap()) {
                 fs.push(fnd(&["C18"], "metadata-drift", "len()/last_modified() of an existing instance changed after the file was modified".to_string()));
             }
+            // two fields changing TOGETHER must not cancel out: the file one byte longer and the
+            // modification time moved by d seconds, for every d in -1100..=1100 (a tag that folds
+            // its fields into one number with a small multiplier collides on one of these)
+            if len <= 65_537 {
+                let w = std::fs::OpenOptions::new().write(true).open(&path).unwrap();
+                let mut checked = 0u64;
+                for d in -1100i64..=1100 {
+                    let t = if d >= 0 { mtime0 + std::time::Duration::from_secs(d as u64) } else { mtime0 - std::time::Duration::from_secs((-d) as u64) };
+                    if w.set_modified(t).is_err() {
+                        continue;
+                    }
+                    let c = Crf::new(File::open(&path).unwrap(), HeaderMap::new()).unwrap();
+                    checked += 1;
+                    if tag(&c) == e0 {
+                        fs.push(fnd(&["C18"], "etag-collision", format!("same etag although the file grew by one byte and its modification time moved by {d} s")));
+                        break;
+                    }
+                }
+                st.count("len_plus_1_mtime_delta_pairs_checked", checked);
+                drop(w);
+            }
             restore(&path, len, len);
             std::fs::OpenOptions::new().write(true).open(&path).unwrap().set_modified(mtime0).unwrap();
         }
@@ -411,6 +432,26 @@ pub fn run_c18(run: &mut Run) -> Stats {
                 st.count(&format!("mtime_plus_{what}_checked"), 1);
             }
             std::fs::OpenOptions::new().write(true).open(&path).unwrap().set_modified(mtime0).unwrap();
+        }
+        // seconds and nanoseconds changing together: +1 s and d ns, d in -1100..=1100
+        if len <= 65_537 {
+            let w = std::fs::OpenOptions::new().write(true).open(&path).unwrap();
+            let mut checked = 0u64;
+            for d in -1100i64..=1100 {
+                let t1 = mtime0 + std::time::Duration::from_secs(1);
+                let t = if d >= 0 { t1 + std::time::Duration::from_nanos(d as u64) } else { t1 - std::time::Duration::from_nanos((-d) as u64) };
+                if w.set_modified(t).is_err() || std::fs::metadata(&path).unwrap().modified().unwrap() != t {
+                    continue;
+                }
+                let c = Crf::new(File::open(&path).unwrap(), HeaderMap::new()).unwrap();
+                checked += 1;
+                if tag(&c) == e0 {
+                    fs.push(fnd(&["C18"], "etag-collision", format!("same etag although the modification time moved by 1 s {d:+} ns")));
+                    break;
+                }
+            }
+            st.count("mtime_sec_plus_nsec_delta_pairs_checked", checked);
+            w.set_modified(mtime0).unwrap();
         }
         // (b') a lattice of modification-time deltas: the tag must tell apart times that differ by
         // any of these amounts (fields merged with the wrong radix collide on such pairs)
